@@ -715,6 +715,28 @@ def store6(ctx) -> List[Ob]:
                 else:
                     # pair check: the propagator renames the same (old, new) pair as the list edit
                     pair = _pair_check(ctx, fn, cfg, n, carriers, prop)
+                    # one propagation per re-targeting: when the call sits in a loop that binds the renamed pair
+                    # (one arc per iteration), the propagation must sit in that loop too - after the loop it sees
+                    # only the last pair
+                    if not pair:
+                        inner = cfg.loops_containing(n)[:1]
+                        if inner:
+                            lp_stmt = inner[0].stmt
+                            bound = {x.id for x in ast.walk(lp_stmt.target) if isinstance(x, ast.Name)} if isinstance(lp_stmt, ast.For) else set()
+                            for st_ in A.walk_no_nested(ast.Module(lp_stmt.body, [])):
+                                if isinstance(st_, (ast.Assign, ast.AnnAssign, ast.AugAssign)):
+                                    tg_ = st_.targets if isinstance(st_, ast.Assign) else [st_.target]
+                                    for t_ in tg_:
+                                        bound |= {x.id for x in ast.walk(t_) if isinstance(x, ast.Name) and isinstance(x.ctx, ast.Store)}
+                            for z in cfg.nodes:
+                                if z.kind == "if" and is_prop(z) and not any(a is lp_stmt for a in A.ancestors(z.stmt)):
+                                    pcs_ = [k for k in A.walk_no_nested(ast.Module(z.stmt.body, [])) if isinstance(k, ast.Call) and (A.dotted(k.func) or "").split(".")[-1] == prop.name]
+                                    used = set()
+                                    for k in pcs_:
+                                        for a_ in k.args[1:]:
+                                            used |= A.names_in(a_)
+                                    if used & bound and z in cfg.reachable(n):
+                                        pair = f"the re-targeting runs once per iteration of the loop at line {A.lineno(lp_stmt)} but {prop.name}({', '.join(sorted(used & bound))}) runs after that loop, with the names of the last iteration only: when several arcs of a region are re-targeted, all but the last keep the old name in the exiting block"
                     if pair:
                         out.append(bad("STORE-6", fn.qualname, key + " :: pair", where, pair))
                     else:
